@@ -13,14 +13,20 @@ def _imports():
     return Environment, Interrupt
 
 
-def run_program(env, mon, shape, sorts, Interrupt, initial_time=0):
+def run_program(env, mon, shape, sorts, Interrupt, initial_time=0, delays=None):
     scripts = shape['scripts']
     top = shape['top']
     nshared = 1 + max([i[1] for s in scripts for i in s if i[0] in ('E', 'W')] or [0])
     shared = [env.event() for _ in range(nshared)]
     procs, pend, term, nvar = {}, {}, {}, [0]
 
-    def delay():
+    def delay(pi=None, k=None):
+        if delays is not None:
+            # the same program run several times in one symbolic run: delays identified by instruction
+            if (pi, k) not in delays:
+                i = len(delays)
+                delays[(pi, k)] = sym_num('d%d' % i, sort_of(sorts, i), 0)
+            return delays[(pi, k)]
         i = nvar[0]
         nvar[0] += 1
         return sym_num('d%d' % i, sort_of(sorts, i), 0)
@@ -39,11 +45,11 @@ def run_program(env, mon, shape, sorts, Interrupt, initial_time=0):
 
     def body(pi, start):
         mon.seen(start)
-        for ins in scripts[pi]:
+        for k_ins, ins in enumerate(scripts[pi]):
             op = ins[0]
             try:
                 if op == 'T':
-                    d = delay()
+                    d = delay(pi, k_ins)
                     ev = env.timeout(d)
                     o = mon.trig('timeout%d' % pi, env.now + d, 1)
                     ev.callbacks.append(mon.probe(o))
@@ -79,6 +85,7 @@ def run_program(env, mon, shape, sorts, Interrupt, initial_time=0):
 
     for pi in range(top):
         spawn(pi)
+    return procs, shared
 
 
 def h_prog(cfg):
